@@ -44,7 +44,8 @@ structure Env where
 /-- per-acquire inputs (nondeterministic environment of the protocol) -/
 structure AcqCfg where
   cb : Bool := false          -- the freshness callback answers `true` when polled in this acquire
-  fails : Bool := false       -- the creator fails when called by this acquire
+  fails : Bool := false       -- the creator returns Err when called by this acquire
+  panics : Bool := false      -- the creator panics when called by this acquire (takes precedence)
   script : List COp := []     -- what the creator does when called by this acquire
   deriving DecidableEq, Repr
 
@@ -117,6 +118,9 @@ structure State where
   fast : Bool := false            -- NotifierImpl.fast_reload
   env : Option Env := none        -- AutoReloader.cached_env
   cur : Option Active := none     -- holder of the cached_env mutex
+  poisoned : Bool := false        -- the cached_env mutex is poisoned (a creator panicked under it)
+  recoverPoison : Bool := false   -- model VARIANT (never set by `init`): `lock()` recovers from the poison
+                                  -- instead of `unwrap()`ing it; used only to show what the poison protects
   cbConst : Option Bool := none   -- NotifierImpl.should_reload_callback after a `set_callback(|| b)`;
                                   -- `none`: the initial callback, which answers `AcqCfg.cb` of the poller
   threads : List Thread := []
@@ -128,6 +132,10 @@ structure State where
   flagObs : Nat := 0              -- reload checks that read the flag as true
   cbObs : Nat := 0                -- reload checks in which the freshness callback answered true
   errs : Nat := 0                 -- acquire_env calls that returned Err
+  panicked : Nat := 0             -- creator calls that panicked
+  lockPanics : Nat := 0           -- acquire_env calls that panicked on the poisoned mutex
+  panicAt : Option Nat := none    -- ghost: clock of the first creator panic
+  panicTids : List Nat := []      -- ghost: threads whose acquire_env panicked
   onCalls : Nat := 0              -- invocations of the on_should_reload callback
   -- ghost logs
   sets : List Nat := []           -- clock of every `should_reload = true` done by request_reload
@@ -173,7 +181,13 @@ def stepActive (σ : State) (c : Active) : Option State :=
   | .creating (.setFast b :: rest) =>
     some { σ with now := t + 1, fast := b, cur := some { c with pc := .creating rest } }
   | .creating [] =>
-    if c.cfg.fails then
+    if c.cfg.panics then
+      -- the creator panics: the stack unwinds out of acquire_env, nothing re-arms the flag, the
+      -- MutexGuard is dropped during the unwinding and thereby poisons the mutex
+      some { σ with now := t + 1, panicked := σ.panicked + 1, poisoned := true,
+                    panicAt := some (σ.panicAt.getD t), panicTids := c.tid :: σ.panicTids,
+                    cur := none, threads := σ.threads.set c.tid .acqDone }
+    else if c.cfg.fails then
       some { σ with now := t + 1, failed := σ.failed + 1, cur := some { c with pc := .failed } }
     else
       some { σ with now := t + 1, env := some ⟨σ.creates, c.buildStart, c.buildStart, 0⟩,
@@ -207,8 +221,14 @@ def step (σ : State) (i : Nat) : Option State :=
   match σ.threads[i]? with
   | some (.acqIdle cfg) =>
     match σ.cur with
-    | none => some { σ with now := t + 1, cur := some { tid := i, cfg := cfg, pc := .locked, lockedAt := t },
-                            threads := σ.threads.set i .acqActive }
+    | none =>
+      if σ.poisoned && !σ.recoverPoison then
+        -- `self.cached_env.lock().unwrap()` on the poisoned mutex panics
+        some { σ with now := t + 1, lockPanics := σ.lockPanics + 1, panicTids := i :: σ.panicTids,
+                      threads := σ.threads.set i .acqDone }
+      else
+        some { σ with now := t + 1, cur := some { tid := i, cfg := cfg, pc := .locked, lockedAt := t },
+                      threads := σ.threads.set i .acqActive }
     | some _ => none
   | some .acqActive =>
     match σ.cur with
